@@ -389,6 +389,10 @@ def op_setitem(st, op, info):
             except Exception:  # noqa
                 shp = tshape
         nd = int_values(spec["nd"].get("vseed", 0), shp)
+        dt = spec["nd"].get("dtype", "float64")
+        if dt != "float64":
+            nd = (nd > 2) if dt == "bool" else nd.astype(dt)
+            st.probe("assigned_ndarray_dtype_" + dt)
         rhs, kind = nd, "nd"
         c05["nd"] = nd
         c05["nd_snap"] = nd.copy()
